@@ -200,11 +200,12 @@ func runC01(env *core.Env) {
 		x, y, z, b, c := core.IDFor(9813), core.IDFor(9814), core.IDFor(9815), core.IDFor(9816), core.IDFor(9817)
 		l.Create(SynItem{ID: pre, Epic: true, Title: "PRE"})
 		l.Create(SynItem{ID: dep, Epic: true, Title: "DEP"})
-		l.Create(SynItem{ID: x, Title: "x failed", In: pre})
+		l.Create(SynItem{ID: x, Title: "x failed"}) // created unfiled, filed under PRE afterwards
 		l.Create(SynItem{ID: y, Title: "y waits for PRE", In: dep})
 		l.Create(SynItem{ID: z, Title: "z claimed but todo"})
 		l.Create(SynItem{ID: b, Title: "b blocked"})
 		l.Create(SynItem{ID: c, Title: "c waits for b"})
+		l.Epic(x, pre)
 		l.Link(dep, pre)
 		l.Link(c, b)
 		l.Claim(x, "w")
